@@ -4,7 +4,6 @@ CONSTANTS
   K = 3
   Rounds = {0, 1, 2, 3, 4, 5}
   Vals = {0, 1, 2}
-  MaxPos = 1000
   MutInCursor = TRUE
   Depth = 30
   CoverOneIn = 1
